@@ -1124,21 +1124,23 @@ Definition pstep (ST : nat -> stmt) (st : gstate) (p : pcall) : option (gstate *
         end
     end.
 
-(* depth-first search; [pre] = pending calls already tried (in vain) in this state *)
-Fixpoint g_par (fuel : nat) (ST : nat -> stmt) (st : gstate) (pre post : list pcall) : option gstate :=
+(* depth-first search; [pre] = pending calls already tried (in vain) in this state; [ok] = what the
+   rest of the history requires of the state the concurrent calls leave behind *)
+Fixpoint g_par (fuel : nat) (ST : nat -> stmt) (ok : gstate -> bool) (st : gstate) (pre post : list pcall)
+  : option gstate :=
   match fuel with
   | O => None
   | Datatypes.S k =>
       match post with
-      | [] => match pre with [] => Some st | _ => None end
+      | [] => match pre with [] => if ok st then Some st else None | _ => None end
       | p :: rest =>
           match pstep ST st p with
           | Some (st', op') =>
-              match g_par k ST st' [] (pre ++ (match op' with Some p' => [p'] | None => [] end) ++ rest) with
+              match g_par k ST ok st' [] (pre ++ (match op' with Some p' => [p'] | None => [] end) ++ rest) with
               | Some r => Some r
-              | None => g_par k ST st (pre ++ [p]) rest
+              | None => g_par k ST ok st (pre ++ [p]) rest
               end
-          | None => g_par k ST st (pre ++ [p]) rest
+          | None => g_par k ST ok st (pre ++ [p]) rest
           end
       end
   end.
